@@ -22,7 +22,7 @@ BUILDER_ORACLE = {'unit': 'builder', 'mount': 'src/compiler/builder.rs', 'mod': 
 # obligations of the builder unit that carry C20 (span recording) rather than C10 (widths)
 C20_BUILDER = (r'^builder/BytecodeBuilder::(emit|emit_jump|emit_jump_if_true|emit_jump_if_false|emit_jump_if_nullish|'
                r'emit_jump_if_not_nullish|emit_jump_to|emit_halt|set_span|clear_span|new|finish|patch_jump|patch_jump_to|'
-               r'patch_try_targets|patch_iter_try_target|current_offset)/|^(lexer_pos|bytecode_srcmap)/')
+               r'patch_try_targets|patch_iter_try_target|current_offset|emit_load_string)/|^builder/BytecodeChunk::|^builder/lemma::lemma_lookup|^(lexer_pos|bytecode_srcmap)/')
 C10_EXCLUDE = r'#(span_recorded|span_inherited|earlier_spans_kept)$|::(set_span|clear_span)/'
 
 PROPS = {
